@@ -121,6 +121,9 @@ def assumption_gate(prop_id: str):
         src = os.path.join(COQ, "Props", mod + ".v")
         if not os.path.exists(vo) or os.path.getmtime(vo) < os.path.getmtime(src):
             return res, "Props/%s.vo missing or stale" % mod
+        q = subprocess.run(["make", "-f", "Makefile.coq", "-q", "Props/" + mod + ".vo"], cwd=COQ, capture_output=True)
+        if q.returncode != 0:
+            return res, "Props/%s.vo is not up to date with its dependencies (a dependency failed to rebuild)" % mod
     if not names:
         return res, "no theorems"
     f = os.path.join(BUILD, f"assum_{prop_id}_{os.getpid()}.v")
